@@ -87,6 +87,9 @@ def run(ctx):
     ctx.assumptions = ["callers do not mutate package internals (e.g. a5.core.origin.origins) from outside the package"]
     _positive_control(ctx)
     w = World(ctx)
+    for f, d in w.unknown_decorators:
+        ctx.unk("C16.0", f"{f} is wrapped by the decorator @{d}", f"{w.rel_of(f)}:{w.model.funcs[f].node.lineno}",
+                "the effects of the wrapper are not modelled; obligations that involve this function are not decided")
     caches, counters, bad = classify(ctx, w)
 
     # ---- violations ------------------------------------------------------------------------------------
